@@ -16,7 +16,9 @@ EARLY = ["#error stop here {n}", "#if 1\nint never{n};", "#include \"missing{n}.
 
 
 def keep(f):
-    return not_meta(f) and not is_wp_related(f) and f.id not in ("unmatchedSuppression", "missingInclude", "missingIncludeSystem")
+    # C17 scenarios carry inline suppressions only, so an unmatchedSuppression report belongs to the unit (or header) holding
+    # the comment and must not depend on the other files either
+    return not_meta(f) and not is_wp_related(f) and f.id not in ("missingInclude", "missingIncludeSystem")
 
 
 class C17(PropBase):
@@ -49,9 +51,15 @@ class C17(PropBase):
             u = rng.choice(units)
             tree[u] = tree[u] + [rng.choice(EARLY).format(n=n)]
         if rng.chance(0.3):
+            # an inline suppression on code that no checked configuration compiles
+            u = rng.choice(units)
+            pos = rng.randint(1 if langs[u] == "cpp" else 0, len(tree[u]))
+            tree[u] = tree[u][:pos] + ["#if 0\n// cppcheck-suppress zerodiv\nint dead%d(int y){return y/0;}\n#endif" % n] + tree[u][pos:]
+        if rng.chance(0.3):
             u = rng.choice(units)
             tree[u] = ["// cppcheck-suppress-file %s" % rng.choice(["zerodiv", "unreadVariable", "nullPointer"])] + tree[u] if langs[u] == "c" else tree[u]
-        opts = {"--enable": rng.choice(["--enable=style,warning,performance,portability", "--enable=style", "--enable=warning", ""]),
+        opts = {"--enable": rng.choice(["--enable=style,warning,performance,portability", "--enable=style", "--enable=warning", "",
+                                        "--enable=style,information", "--enable=information", "--enable=warning,information"]),
                 "--inline-suppr": "--inline-suppr"}
         if not opts["--enable"]:
             del opts["--enable"]
@@ -108,8 +116,11 @@ class C17(PropBase):
             lines = files.get(fn, "").split("\n")
             try:
                 txt = lines[int(ln) - 1]
+                prev = lines[int(ln) - 2] if int(ln) >= 2 else ""
             except (ValueError, IndexError):
                 return False
+            if f.id == "unmatchedSuppression" and ("cppcheck-suppress-macro" in txt or "cppcheck-suppress-macro" in prev):
+                continue   # the report about the suppress-macro comment itself (it is "matched" by the other unit's finding)
             if not any(re.search(r"\b%s\b" % re.escape(n), txt) for n in names):
                 return False
         return True
